@@ -35,8 +35,14 @@ def run_property(pid, cases, tier, chunk=30, title='', bounds=None, cfg=None, ex
     replay_root = os.path.join(core.scratch() if noev else os.path.join(core.VERIF, 'evidence'), 'replay', pid)
     shutil.rmtree(replay_root, ignore_errors=True)
     confirmed, spurious = [], []
+    per_case = {}
     for v in rep.violations:
         case = v['case']
+        # one replay (and one VIOLATION line) per case and linked variant: further failing paths of the same case are counted in the evidence
+        pk = (v['tag'], bool(v.get('keep_all')))
+        per_case[pk] = per_case.get(pk, 0) + 1
+        if per_case[pk] > 1:
+            continue
         outdir = os.path.join(replay_root, v['tag'] + ('_keepall' if v.get('keep_all') else ''))
         try:
             info = tv.replay(case, v['model'], outdir, minify=minify, keep_all=bool(v.get('keep_all')))
@@ -101,7 +107,7 @@ def run_property(pid, cases, tier, chunk=30, title='', bounds=None, cfg=None, ex
             'engine_flags': rep.flags, 'bounds': bounds or {}, 'what': title,
             'functions_encoded': 'the JavaScript emitted by /repo\'s compiler for each case function + every prelude helper it calls (instrumented and executed symbolically, not modelled)',
             'known_findings_seen': [{'case': h['tag'], 'what': h['finding']['what'], 'model': h['model']} for h in rep.known_hits][:20],
-            'violations_confirmed': [{k: v for k, v in r.items()} for r in confirmed][:20],
+            'violations_confirmed': [{k: v for k, v in r.items()} for r in confirmed][:20], 'violating_paths_per_case': {k[0] + ('/keep-all' if k[1] else ''): n for k, n in per_case.items()},
             'spurious_models': spurious[:10], 'solver': core.Z3, 'solver_errors': getattr(rep, 'solver_errors', []),
             'repo': core.repo_state(),
         },
